@@ -265,7 +265,11 @@ def main():
             "undecided": undecided, "out_of_subset": P.get("out_of_subset", []),
             "lemmas": P.get("lemmas", []),
             "vacuity_covers": P.get("vacuity", []),
-            "encoder_crosscheck": P.get("crosscheck", {}),
+            "encoder_crosscheck": P.get("crosscheck") or {"status": "not run inside the check",
+                                                           "note": "the CPython differential of DESIGN section 6 was not built; the encoding is exercised by the developer "
+                                                                   "tool vlib/pmutate.py --bcheck (planted mutants proved by P and run through layer B, DESIGN section 12) and "
+                                                                   "by the native replay of every refuted obligation"},
+            "baseline_guard": "every obligation name recorded for the pinned tree in contracts/baseline.json must be generated again (else UNDECIDED)",
             "obligation_samples": P.get("obligation_samples", []),
         })
     if B:
